@@ -9,7 +9,7 @@ from __future__ import annotations
 
 import ast
 
-from ..astutil import calls, text, walk_no_nested
+from ..astutil import calls, get_arg, text, walk_no_nested
 from ..effects import Effects, Write
 from ..index import AnalysisError
 from ..report import Ctx
@@ -350,4 +350,41 @@ def rule_e(ctx: Ctx) -> None:
                 'guarded branch must not be control dependent on per-call state (taint from `context`).')
 
 
-RULES = [rule_a, rule_b, rule_c, rule_d, rule_e]
+def rule_f(ctx: Ctx) -> None:
+    """A validation run holds on to schema components (the declared type, the element being decoded).  Loading a namespace on
+    demand in the middle of a run must therefore leave the components that are already built in place."""
+    rule = 'C10.f'
+    idx = ctx.idx
+    eff, cg, prev, roots, _ = graph(ctx)
+    sites = []
+    for q in prev:
+        f = idx.functions[q]
+        if isinstance(f.node, ast.Lambda):
+            continue
+        for c in calls(f.node):
+            if isinstance(c.func, ast.Attribute) and c.func.attr == 'load_namespace':
+                b = get_arg(c, 1, 'build')
+                if b is None or not (isinstance(b, ast.Constant) and b.value is False):
+                    sites.append((f, c))
+    ctx.floor(rule, 'validation-time call sites of load_namespace', len(sites), 2)
+    ln = idx.func('xmlschema.loaders.SchemaLoader.load_namespace')
+    builds = [c for c in calls(ln.node) if text(c.func) == 'self.maps.build']
+    bd = idx.func(f'{V}.xsd_globals.XsdGlobals.build')
+    g = cfg_of(ctx, bd)
+    clears = [n for n, c in call_nodes(g, lambda c: text(c.func) in ('self.clear', 'self.global_maps.clear'))]
+    # is the clear conditional on "nothing is built yet / nothing in use"?
+    guarded = bool(clears) and all(any(lab == 'T' and ('not self.global_maps' in t or 'empty' in t or 'in_use' in t) for t, lab in guards(ctx, bd, n)) for n in clears)
+    ok = not sites or not builds or not clears or guarded
+    det = ''
+    if not ok:
+        where = ', '.join(sorted({f'{f.qualname.split(".")[-2]}.{f.name}' for f, c in sites}))
+        det = (f'{where} call loader.load_namespace(namespace) for a namespace met in the instance; with build=True it ends in XsdGlobals.build(), which '
+               'clear()s every global map and builds all components anew: the run in flight keeps comparing the old type objects (is_derived by identity) '
+               'with the new ones - a valid document is reported invalid on the first call and valid on the next one')
+    ctx.ob(rule, 'loading a namespace during validation leaves the components already in use in place', bd.loc(clears[0].ast) if clears else bd.loc(), ok, det,
+           key='XsdGlobals.build|clear-while-in-use')
+    ctx.explain('C10.f: call sites of load_namespace reachable at validation time (typed call graph) -> SchemaLoader.load_namespace -> '
+                'XsdGlobals.build -> unconditional clear() of the global maps.')
+
+
+RULES = [rule_a, rule_b, rule_c, rule_d, rule_e, rule_f]
